@@ -227,6 +227,12 @@ def run(rep, repo, tier):
                         'the reported pairs form a matching: at most one pair per student (C01)']
     from ..defined import check_defined
     check_defined(rep, repo, 'C11.R3', [repo.method('Model', 'get_results')], 'result rendering')
+    from ..lints import falls_off_the_end
+    for cls_, name_ in (('Solver', 'get_results'), ('Solver', 'get_results_short'), ('Solver', 'get_results_long'), ('Model', 'get_results')):
+        g = repo.method(cls_, name_, required=False)
+        if g is not None:
+            rep.check(not falls_off_the_end(g), 'C11.R3', g.where, '%s.%s hands its text back on every path' % (cls_, name_), got='a path reaches the end of the function without `return <text>`: the caller prints None',
+                      want='return on every path', construct='%s.%s returns nothing on some path' % (cls_, name_))
     # R5: the list
     fpa = repo.method('Model', '_get_pair_assignments')
     try:
